@@ -282,13 +282,24 @@ end
 /-- marker for a leaf whose text the model cannot predict (address of a func value inside a list) -/
 def unpredictable : JVal := .str "$unpredictable"
 
+/-- marker a custom scalar's serialise table uses for "the serialiser panics on this value" -/
+def isPanicMarker : JVal → Bool
+  | .obj [(k, _)] => k == "$panic"
+  | _ => false
+
+def leafPanics : ScalarKind → JVal → Bool
+  | .custom ser _ _, j => isPanicMarker (tableLookup ser j)
+  | _, _ => false
+
 /-- `completeLeafValue`: `some j` = serialised (possibly null), `none` = the serialiser panics (unhashable
-enum key) ⇒ field error -/
+enum key, custom serialiser rejecting the value) ⇒ field error -/
 def serializeLeaf (s : Schema) (typeName : String) (v : GoVal) : Option JVal :=
   match s.find? typeName with
   | some (.scalar _ k _) =>
     match v.toJ with
     | some j =>
+      -- a custom serialiser whose table maps the value to the marker `{"$panic": …}` panics (harness/gq tableFn)
+      if leafPanics k j then none else
       some (match k with
         | .int => coerceInt j
         | .float => coerceFloat j
